@@ -33,12 +33,13 @@ func init() {
 					"Oracles: zero race reports; every lookup observes one complete configuration (H3); a published configuration is never written again (H4); functional replies unchanged. states = harnesses explored; transitions = primitive operations executed; traces = executions with no finding",
 				Assumptions: []string{"happens-before edges of the modelled primitives mirror sync.Mutex/RWMutex/WaitGroup/Once and channel semantics; where exact modelling is awkward more edges are issued (may hide, cannot invent a race)",
 					"statement-level scheduling points only inside loader.updates; elsewhere preemption happens at synchronisation and I/O operations"},
-				Extra: map[string]interface{}{"deviation_bound_completed": b}}
+				Extra: map[string]interface{}{"deviation_bound_target": b}}
 		},
 		Workers:      constInt(0, 0),
 		SchedWorkers: constInt(10, 10),
 		Run:          schedOnly,
 		Replay:       schedReplayDispatch,
+		Post:         schedPost,
 	}
 	Registry["C17"] = &Check{
 		Spec: func(tier string) evid.Spec {
@@ -52,13 +53,43 @@ func init() {
 					" deviations is executed. Oracles on the global event log: every Read is issued with a finite read deadline in the (virtual) future armed; a connection whose deadline fires is closed and never read or written again; " +
 					"when Serve returns the listener was closed before, every accepted connection is closed, and no handler entry/exit, read, write or close carries a later index; Serve does return (a state with no runnable thread is a deadlock violation). " +
 					"states = scripts; transitions = primitive operations executed",
-				Extra: map[string]interface{}{"script_length": n, "deviation_bound_completed": b}}
+				Extra: map[string]interface{}{"script_length": n, "deviation_bound_target": b}}
 		},
 		Workers:      constInt(0, 0),
 		SchedWorkers: constInt(16, 16),
 		Run:          schedOnly,
 		Replay:       schedReplayDispatch,
+		Post:         schedPost,
 	}
 }
 
 func itoa(n int) string { return string(rune('0' + n)) }
+
+// schedPost states, from the merged counters, which deviation bound every scheduler job completed.
+func schedPost(c *Ctx) {
+	total := c.R.Counters["sched_jobs_total"]
+	best := -1
+	for b := 0; b <= 4; b++ {
+		if c.R.Counters["sched_jobs_completed_deviation_bound_"+itoa(b)] == total && total > 0 {
+			best = b
+		}
+	}
+	c.R.Note("scheduler jobs: " + fmtInt(total) + "; deviation bound completed by every job: " + fmtInt(int64(best)))
+	want := int64(1)
+	if !c.Quick {
+		want = 2
+	}
+	if int64(best) < want {
+		c.R.Capped = true
+	}
+}
+
+func fmtInt(n int64) string {
+	if n < 0 {
+		return "-" + fmtInt(-n)
+	}
+	if n < 10 {
+		return string(rune('0' + n))
+	}
+	return fmtInt(n/10) + string(rune('0'+n%10))
+}
